@@ -160,6 +160,8 @@ CliCorpus(z) == {
   \* a run-time error that quotes a long value made of two-byte characters (the message is the library's, whatever its length)
   [tree |-> << <<Say(S("go")), SListen(0, X), SMut(0, "cast", X, ENone, ENone), Say(X)>> >>, inp |-> <<"x" \o RepStrG("~", 60) \o NL>>],
   [tree |-> << <<Say(S("go")), SListen(0, X), Say(B("minus", X, N(1)))>> >>, inp |-> <<RepStrG("~", 70) \o NL>>],
+  \* string literals that hold line ends of both conventions (the tool reads the file as it is)
+  [tree |-> << <<Say(S("one\r\ntwo")), Say(S("three\nfour\r")), SPStr(0, X, "five\r"), Say(X), Say(S("end"))>> >>, inp |-> <<>>],
   \* a run-time error that quotes an array with six keyed entries (its text is the same in every process)
   [tree |-> << <<SAssign(0, Idx(X, S("a")), "none", <<N(1)>>), SAssign(0, Idx(X, S("b")), "none", <<N(2)>>), SAssign(0, Idx(X, S("c")), "none", <<N(3)>>),
                  SAssign(0, Idx(X, S("d")), "none", <<N(4)>>), SAssign(0, Idx(X, Lit(Null)), "none", <<N(5)>>), SAssign(0, Idx(X, Lit(Bool(TRUE))), "none", <<N(6)>>),
